@@ -33,6 +33,11 @@ Init == /\ sci \in StartCi /\ rci = -1 /\ lost = FALSE /\ out = <<>> /\ gap = FA
 
 Inc(c) == (c + 1) % 256
 
+\* room for user data: bytes 4..39 minus address nibbles, explicit CI and DL bytes; without a DL byte
+\* the whole room is user data
+Cap(fmt, spalen) == 36 - spalen - (IF fmt \in {"ci", "ci+dl"} THEN 1 ELSE 0) - (IF fmt \in {"ci+dl", "impl+dl"} THEN 1 ELSE 0)
+Payload(n, fmt, spalen) == IF fmt \in {"ci+dl", "impl+dl"} THEN (IF n < Cap(fmt, spalen) THEN n ELSE Cap(fmt, spalen)) ELSE Cap(fmt, spalen)
+
 \* a packet of the selected address; how = what the channel does to it
 Send(how, n, fmt, spalen, dep) ==
   /\ npk' = npk + 1
@@ -40,7 +45,7 @@ Send(how, n, fmt, spalen, dep) ==
   /\ sci' = Inc(sci)
   /\ CASE how = "ok" ->
             LET l == lost \/ (rci # -1 /\ rci # sci) IN
-            /\ out' = <<[n |-> n, lost |-> l, dep |-> dep]>>
+            /\ out' = <<[n |-> Payload(n, fmt, spalen), lost |-> l, dep |-> dep]>>
             /\ rci' = Inc(sci) /\ lost' = FALSE /\ gap' = FALSE /\ seen' = TRUE
        [] how = "drop" -> /\ out' = <<>> /\ gap' = TRUE /\ UNCHANGED <<rci, lost, seen>>
        [] how = "crc"  -> /\ out' = <<>> /\ gap' = TRUE /\ rci' = -1 /\ lost' = TRUE /\ seen' = TRUE
